@@ -56,7 +56,7 @@ SALT_Q = R("salt_q", "salt_q.cfg", rounds=3, expect_ops=["add_salt", "add_salt_w
            expect_out=["add_salt_with_len:err", "add_salt_in_range:err"])
 
 TRACE_WALK = dict(name="trace_walk", kind="trace", driver="tracecheck", gen_args=["--traces", 24, "--len", 150],
-                  expect_ops=["add_assertion_envelope", "elide_set", "encrypt_subject", "decrypt_subject", "compress", "uncompress", "encode_decode", "remove_present", "replace_subject", "add_salt"])
+                  expect_ops=["add_assertion_envelope", "elide_set", "encrypt_subject", "decrypt_subject", "compress", "uncompress", "encode_decode", "remove_present", "replace_present", "replace_subject", "add_salt"])
 TRACE_WALK_T = dict(TRACE_WALK, name="trace_walk_t", gen_args=["--traces", 120, "--len", 300, "--max-elements", 60])
 TRACE_ORDER = dict(name="trace_order", kind="trace", driver="tracecheck", gen_args=["--mode", "order"], expect_ops=["add_assertion_envelope", "encode_decode"])
 TRACE_BYTES = dict(name="trace_bytes", kind="trace", driver="tracecheck", gen_args=["--mode", "bytes", "--count", 20000], expect_ops=["decode_bytes"])
